@@ -734,6 +734,9 @@ func c05AppGen(r *Rng, id int) c05Case {
 		switch {
 		case x < 20:
 			c.Ops = append(c.Ops, c05AppOp{Op: "join_cp", User: u, Share: fmt.Sprintf("rel:%d", r.Intn(12))})
+		case x < 24:
+			// single-asset join of the weighted (1:3) constant-product pool, from dust to a multiple of the reserve
+			c.Ops = append(c.Ops, c05AppOp{Op: "join_cp_single", User: u, D: r.Intn(2), Coins: []c05Coin{{D: 0, A: r.Decade(0, 11).String()}}})
 		case x < 38:
 			op := c05AppOp{Op: "join_oracle", User: u}
 			a := r.Decade(0, 11)
@@ -846,6 +849,9 @@ func c05AppExec(t *testing.T, col *Collector, c c05Case) []string {
 				maxs = append(maxs, sdk.NewCoin(den(i), sdkmath.NewInt(900_000_000_000)))
 			}
 			res = w.Deliver(&ammtypes.MsgJoinPool{Sender: u.String(), PoolId: pid, MaxAmountsIn: maxs, ShareAmountOut: sdkmath.NewIntFromBigInt(want)})
+		case "join_cp_single":
+			want = c05Big(op.Coins[0].A)
+			res = w.Deliver(&ammtypes.MsgJoinPool{Sender: u.String(), PoolId: pid, MaxAmountsIn: sdk.Coins{sdk.Coin{Denom: den(op.D), Amount: sdkmath.NewIntFromBigInt(want)}}, ShareAmountOut: sdkmath.NewInt(1)})
 		case "join_oracle", "join_oracle_single":
 			var maxs sdk.Coins
 			for _, cn := range op.Coins {
@@ -925,7 +931,29 @@ func c05AppExec(t *testing.T, col *Collector, c c05Case) []string {
 			if minted.Cmp(subB(S2, S)) != 0 {
 				chk.fail("C05:join-share-accounting", fmt.Sprintf("%s minted %s supply grew %s", op.Op, minted, subB(S2, S)))
 			}
-			if op.Op == "join_oracle_single" {
+			if op.Op == "join_cp_single" {
+				// weighted pool, single asset X with normalised weight w: shares = S*((1+a'/X)^w - 1) <= S*w*a/X (concavity), i.e. at the
+				// pool's own spot prices (pool value = X/w in units of X) the minted shares are worth at most the deposit:
+				//   minted * X * W <= S * w_X * a   (+ 1e-8 relative for the power approximation, + one share unit)
+				i := op.D % len(R)
+				wX := p0.PoolAssets[i].Weight.BigInt()
+				W := new(big.Int)
+				for _, a := range p0.PoolAssets {
+					W.Add(W, a.Weight.BigInt())
+				}
+				lhs := mulB(mulB(minted, R[i]), W)
+				rhs := mulB(mulB(S, wX), paid[i])
+				slack := addB(new(big.Int).Div(rhs, big.NewInt(100_000_000)), mulB(R[i], W))
+				if lhs.Cmp(addB(rhs, slack)) > 0 {
+					chk.fail("C05:cp-single-join-shares-exceed-value", fmt.Sprintf("asset %s (weight %s of %s) reserve %s: deposited %s minted %s of %s shares: minted*X*W = %s > S*w*a = %s", den(i), wX, W, R[i], paid[i], minted, S, lhs, rhs))
+				}
+				for j := range R {
+					if j != i && paid[j].Sign() != 0 {
+						chk.fail("C05:join-charged-differs-from-booked", fmt.Sprintf("single-asset join moved %s of the other asset %s", paid[j], den(j)))
+					}
+				}
+				col.ImplCheck(1)
+			} else if op.Op == "join_oracle_single" {
 				// single-sided: value of the shares at the pool's book value <= value paid (+ bonus received) + one share unit
 				v := tvl(paid) // a weight-recovery bonus paid by the treasury reduces what the joiner paid: conservative
 				if mulB(minted, tvl(R)).Cmp(addB(mulB(S, tvl(subBs(R2, R))), tvl(R))) > 0 {
